@@ -36,7 +36,8 @@ fn leaf_value(leaf: &str, rng: &mut Rng) -> (DynVal, DynType) {
         "bearer" => (DynVal::Bearer("abc.def=".parse().unwrap()), DynType::Bearer),
         "safelong" => (DynVal::SafeLong(conjure_object::SafeLong::new(*rng.pick(&[0, -9007199254740991, 9007199254740991])).unwrap()), DynType::SafeLong),
         "datetime" => (DynVal::DateTime("2017-01-02T03:04:05.000000006Z".parse().unwrap()), DynType::DateTime),
-        "doublekey" => (DynVal::DoubleKey(conjure_object::DoubleKey(*rng.pick(&[1.5, f64::NAN, f64::INFINITY, 0.1, -1e300, 5e-324, 16777217.0]))), DynType::DoubleKey),
+        "doublekey" => (DynVal::DoubleKey(conjure_object::DoubleKey(*rng.pick(&[1.5, f64::NAN, f64::INFINITY, 0.1, -1e300, 5e-324, 16777217.0,
+            f64::from_bits(0xfff8000000000000), f64::from_bits(0x7ff8000000000123)]))), DynType::DoubleKey),
         "struct" => (
             DynVal::Struct(vec![("a", DynVal::I32(1)), ("b", DynVal::Str("x".into()))]),
             DynType::Struct(vec![("a", DynType::I32), ("b", DynType::Str)]),
